@@ -1,6 +1,6 @@
 SPECIFICATION Spec
 CONSTANTS
-  Names = {"uni", "ab"}
+  Names = {"uni", "ab", "a"}
   BaseLens = {3, 30}
   Align = {20}
   EndAlign = {}
